@@ -87,6 +87,8 @@ def validate(saved_path, source_members):
     if len(meta) != 1:
         return errs + [f"inventory: {len(meta)} PackageMetadata objects"]
     meta = meta[0]
+    src_meta = [m for (n, a, m) in src_objs.values() if m is not None and m.DESCRIPTOR.full_name == "TSP.PackageMetadata"]
+    src_meta_datas = list(src_meta[0].datas) if src_meta else []
     new_ids = sorted(set(objs) - set(src_objs))
     over = [i for i in new_ids if i > meta.last_object_identifier]
     if over:
@@ -96,6 +98,25 @@ def validate(saved_path, source_members):
     for n in sorted(names - src_names):
         if n not in listed:
             errs.append(f"inventory: archive file {n} was added but is not listed in PackageMetadata.components")
+    # every data file the save added (Data/<name>: images) has its DataInfo record in the package metadata, and every record has its file
+    all_members = {n for n, _ in members}
+    src_all = {n for n, _ in source_members}
+    data_listed = {f"Data/{d.file_name}" for d in meta.datas} | {f"Data/{d.preferred_file_name}" for d in meta.datas}
+    import hashlib
+    digests = {bytes(d.digest) for d in meta.datas}
+    content = dict(members)
+    for n in sorted(all_members - src_all):
+        # (identical data under a second name shares the first one's record - the library keys data by digest - so only data that no
+        # record describes is an error)
+        if n.startswith("Data/") and n not in data_listed and hashlib.sha1(content[n]).digest() not in digests:  # noqa: S324
+            errs.append(f"inventory: data file {n} was added but no DataInfo record of the package metadata describes it (by name or by digest)")
+    for d in meta.datas:
+        if f"Data/{d.file_name}" not in all_members and f"Data/{d.preferred_file_name}" not in all_members and f"Data/{d.file_name}" not in src_all \
+                and d.identifier not in {x.identifier for x in src_meta_datas}:
+            errs.append(f"inventory: DataInfo record {d.identifier} ({d.file_name}) was added but the package has no such data file")
+    data_ids = [d.identifier for d in meta.datas]
+    if len(data_ids) != len(set(data_ids)):
+        errs.append(f"inventory: data identifiers listed twice: {sorted({i for i in data_ids if data_ids.count(i) > 1})[:5]}")
     comp_ids = [c.identifier for c in meta.components]
     if len(comp_ids) != len(set(comp_ids)):
         errs.append(f"inventory: component identifiers listed twice: {sorted({i for i in comp_ids if comp_ids.count(i) > 1})[:5]}")
@@ -238,7 +259,8 @@ def build(kind, rnd):
         from numbers_parser import BackgroundImage
         png = bytes.fromhex("89504e470d0a1a0a0000000d4948445200000001000000010806000000 1f15c4890000000d49444154789c6360606060000000050001a5f645400000000049454e44ae426082".replace(" ", ""))
         t.set_cell_style(0, 0, doc.add_style(bg_image=BackgroundImage(png, "dot.png")))
-        t.set_cell_style(1, 0, doc.add_style(bg_image=BackgroundImage(png, "dot2.png")))
+        t.set_cell_style(1, 0, doc.add_style(bg_image=BackgroundImage(png + b"\0", "dot2.png")))   # different data: its own record
+        t.set_cell_style(2, 0, doc.add_style(bg_image=BackgroundImage(png, "dot3.png")))            # the first image's data again: shares its record
     elif kind == "formats":
         t.write(0, 0, 1234.5)
         t.set_cell_formatting(0, 0, "number", decimal_places=1, show_thousands_separator=True)
